@@ -256,6 +256,30 @@ print("ILLEGAL" if bad else "LEGAL", names)
 '''
 
 
+_SELECT_DEFAULT_HINT = '''
+import cohdl
+from cohdl import Entity, Port, Bit, Unsigned, std
+class E(Entity):
+    c = Port.input(Bit)
+    a = Port.input(Unsigned[16])
+    b = Port.input(Unsigned[4])
+    o = Port.output(Unsigned[16])
+    def architecture(self):
+        @std.concurrent
+        def logic():
+            self.o <<= self.a if self.c else self.b     # the narrower alternative is the `when others` value
+t = std.VhdlCompiler.to_string(E)
+i = t.find("with ")
+stmt = t[i:t.find(";", i) + 1].replace("\\n", " ")
+print("UNCONVERTED-DEFAULT" if "resize(b" not in stmt.replace(" ", "") and "b when others" in stmt else "CONVERTED", stmt)
+'''
+
+
+def replay_select_default_hint(payload):
+    rc, out = _run_design(_SELECT_DEFAULT_HINT)
+    return {"reproduced": rc == 0 and "UNCONVERTED-DEFAULT" in out, "detail": out[-300:]}
+
+
 def replay_invalid_identifier(payload):
     rc, out = _run_design(_IDENTIFIER_DESIGN)
     return {"reproduced": rc == 0 and "ILLEGAL" in out, "detail": out[-300:]}
